@@ -21,7 +21,9 @@ ASSUMPTIONS = ['sequences needing a cyclic term are skipped', 'values nested dee
 X, Y, Z, W = V('X'), V('Y'), V('Z'), V('W')
 a, b, c = A('a'), A('b'), A('c')
 EQS = [(X, F('f', Y)), (X, F('g', Y, Z)), (Y, F('h', Z)), (Y, Z), (Z, a), (Y, b), (X, L([Y], Z)), (Z, NIL),
-       (Z, F('k', W)), (W, c)]
+       (Z, F('k', W)), (W, c),
+       # a compound whose FIRST argument is itself a compound and whose later argument is a variable bound afterwards
+       (X, F('p', F('t', c), Y))]
 VARS = [X, Y, Z, W]
 
 
